@@ -109,7 +109,23 @@ def key_is_weak(f, key_text):
     for s in statements(f, skip_nested_defs=False):
         if isinstance(s, ast.Assign) and len(s.targets) == 1 and isinstance(s.targets[0], ast.Name) and s.targets[0].id == key_text:
             txt += ' := ' + unparse(s.value)
-    return any(m in txt for m in WEAK_KEY_MARKERS)
+    if any(m in txt for m in WEAK_KEY_MARKERS):
+        return True
+    # a literal key is one slot shared by all calls: it carries no information about the arguments, so validity can only come from a
+    # test at the reader.  A test by object identity (`a is b`, other than against None / True / False) of the stored against the
+    # current arguments does not determine the cached value: the objects are mutable (an Obs changes its errors and correlations
+    # with every gamma_method call), so the same objects in another state get the result computed for the earlier state.
+    try:
+        lit = isinstance(ast.parse(key_text, mode='eval').body, ast.Constant)
+    except SyntaxError:
+        lit = False
+    if lit:
+        for c in walk(f, skip_nested_defs=False):
+            if isinstance(c, ast.Compare) and any(isinstance(o, (ast.Is, ast.IsNot)) for o in c.ops):
+                sides = [c.left] + list(c.comparators)
+                if not any(isinstance(x, ast.Constant) and x.value in (None, True, False) for x in sides):
+                    return True
+    return False
 
 
 def check(ctx, rule, mod, qualnames, what):
